@@ -2,6 +2,8 @@
 //! usage: implrun <KIND>   (cases on stdin, one s-expression per line; one answer line each)
 mod c12;
 mod c13;
+mod dump_gen;
+mod load;
 mod modops;
 mod sx;
 
@@ -25,6 +27,8 @@ fn main() {
             "C12" => c12::run(&case),
             "C13" => c13::run(&case),
             "C14" | "C15" => modops::run(&case),
+            "LOAD" => load::run_load(&case),
+            "TOKENS" => load::run_tokens(&case),
             _ => panic!("unknown case kind {kind}"),
         };
         let mut s = String::new();
